@@ -1,7 +1,7 @@
 """C16  Time evolution reaches exp(-iHt).
 
 Static part (coq/theories/C16): model of TermGroup.from_terms / HamiltonianTerm.merge / the
-symmetric Trotter step structure, of nsteps = int((T - t0)/dt) in binary64 (Coq primitive floats),
+symmetric Trotter step structure, of nsteps = int(round((T - t0)/dt)) in binary64 (Coq primitive floats),
 of the Runge-Kutta steps over a commutative ring, and the theorems of Props.v.
 Correspondence part (this file):
   * grouping / merging / Trotter gate list: random term sets with overlapping, nested and
@@ -17,7 +17,7 @@ Correspondence part (this file):
   * tolerance *tests* (labelled): Trotter error order, exp-solver final state, RK convergence order.
 """
 import os as _os
-STATIC = ["C16/Props"] if _os.path.exists("/verif/coq/theories/C16/Props.v") else ["C16/Model", "Base/TrigMat"]
+STATIC = ["C16/Props", "C16/History", "Base/TrigMat"]
 import itertools
 import math
 import random
@@ -376,7 +376,7 @@ def run_nsteps(run, rng):
             if n != m:
                 bad_decimal.append({"t0": t0, "T": T, "dt": dt, "steps_run": n, "steps_expected": m})
         items.append((f"n{j}", term))
-        items.append((f"f{j}", f"ozeqb (nsteps_fixed {fme(t0)} {fme(T)} {fme(dt)}) (Some {zint(n)})"))
+        items.append((f"p{j}", f"ozeqb (nsteps_prefix {fme(t0)} {fme(T)} {fme(dt)}) (Some {zint(n)})"))
         metas.append({"t0": t0, "T": T, "dt": dt, "steps": n})
         metas.append(None)
     run.sample({"kind": "nsteps", "t0": 0.0, "T": 0.3, "dt": 0.1, "steps_run_by_StateEvolution": real_nsteps(ev, 0.0, 0.3, 0.1)})
@@ -389,19 +389,22 @@ def run_nsteps(run, rng):
         allres.update(res)
     code_ok = [lab for lab, _ in items if lab.startswith("n") and allres.get(lab) is True]
     code_bad = [lab for lab, _ in items if lab.startswith("n") and allres.get(lab) is False]
-    if code_bad and all(allres.get("f" + lab[1:]) for lab in code_bad) and all(allres.get("f" + lab[1:]) for lab in code_ok):
-        # every triple agrees with the repaired model (round to nearest): /repo has been repaired
-        run.notes["implementation_follows_repaired_model"] = {"nsteps_fixed": len(code_bad) + len(code_ok)}
+    if code_bad and all(allres.get("p" + lab[1:]) for lab in code_bad + code_ok):
+        # every triple agrees with the HISTORICAL truncation model: the repair of execute() was lost.
+        # The concrete failing inputs are the decimal-grid triples reported below.
+        run.notes["implementation_follows_historical_model"] = {"nsteps_prefix (truncation)": len(code_bad) + len(code_ok)}
+        if not bad_decimal:
+            run.find("nsteps_model:truncation", "StateEvolution.execute follows the truncation model again, no decimal-grid witness in this run", {}, concrete=False)
     else:
         for (lab, _), meta in zip(items, metas):
             if lab in code_bad:
-                run.find(f"nsteps_model:{meta['t0']!r}:{meta['T']!r}:{meta['dt']!r}", "PrimFloat model of int((T - t0)/dt) disagrees with StateEvolution.execute", {"mechanism": "nsteps", **meta}, concrete=False)
+                run.find(f"nsteps_model:{meta['t0']!r}:{meta['T']!r}:{meta['dt']!r}", "PrimFloat model of int(round((T - t0)/dt)) disagrees with StateEvolution.execute", {"mechanism": "nsteps", **meta}, concrete=False)
     run.notes["nsteps_decimal_grid_truncated"] = {"count": len(bad_decimal), "of": sum(1 for t in triples if t[3] is not None), "examples": bad_decimal[:5]}
     # the property: T - t0 a multiple of dt  =>  that many steps.  Replay a truncated triple on the real evolution.
     for w in bad_decimal[:40]:
         key = f"nsteps_truncation:T={w['T']!r},dt={w['dt']!r},t0={w['t0']!r}"
         rp = replay_missing_step(w["t0"], w["T"], w["dt"], w["steps_expected"])
-        run.find(key, f"StateEvolution.execute runs {w['steps_run']} steps instead of {w['steps_expected']} (int() truncates (T - t0)/dt)", {"mechanism": "nsteps", **w, **rp})
+        run.find(key, f"StateEvolution.execute runs {w['steps_run']} steps instead of {w['steps_expected']} (the quotient (T - t0)/dt is truncated instead of rounded)", {"mechanism": "nsteps", **w, **rp})
 
 
 def replay_missing_step(t0, T, dt, m):
@@ -527,8 +530,8 @@ def run_rk(run, rng):
                 run.case(["rk", cls, str(dt), str(Hv)])
                 items.append((f"{cls}:{dt}:{Hv}",
                               f"gq_eqb ({model} gq_ring (gq_of {qlit(Hv)}) (gq_of {qlit(dt)}) (gq_of (1 # 1))) ({qlit(re_)}, {qlit(im_)})"))
-                items.append((f"fixed:{cls}:{dt}:{Hv}",
-                              f"gq_eqb ({model}_fixed gq_ring (gq_of {qlit(Hv)}) (gq_of {qlit(dt)}) (gq_of (1 # 1))) ({qlit(re_)}, {qlit(im_)})"))
+                items.append((f"prefix:{cls}:{dt}:{Hv}",
+                              f"gq_eqb ({model}_prefix gq_ring (gq_of {qlit(Hv)}) (gq_of {qlit(dt)}) (gq_of (1 # 1))) ({qlit(re_)}, {qlit(im_)})"))
         order = 4 if cls == "RungeKutta4" else 5
         # the property: the step agrees with exp(-i dt H) psi up to its stated order
         tay = taylor_poly(order)
@@ -537,7 +540,7 @@ def run_rk(run, rng):
         if low:
             k0 = min(low)
             run.find(f"rk_order:{cls}",
-                     f"{cls}.__call__ feeds H @ state (not -i H @ state) into the stages: the step differs from the Taylor series of exp(-i dt H) at order dt^{k0[0]} (first-order method)",
+                     f"{cls}.__call__: one step for constant H differs from the Taylor series of exp(-i dt H) psi at order dt^{k0[0]} (below the stated order of the method)",
                      {"mechanism": "rk", "solver": cls, "first_wrong_monomial": f"dt^{k0[0]} H^{k0[1]} psi",
                       "coefficient_is": [str(x) for x in poly.d.get(k0, (0, 0))], "coefficient_should_be": [str(x) for x in tay.d.get(k0, (0, 0))],
                       **rk_convergence_test(cls)})
@@ -551,8 +554,9 @@ def run_rk(run, rng):
         labs = [lab for lab, _ in items if lab.startswith(cls + ":")]
         if not labs or all(res[lab] for lab in labs):
             continue
-        if all(res["fixed:" + lab] for lab in labs):
-            run.notes.setdefault("implementation_follows_repaired_model", {})[cls] = "rk step equals the model with stages -i H s (repaired)"
+        if all(res["prefix:" + lab] for lab in labs):
+            # the step equals the HISTORICAL model (stages without -i): reported concretely as rk_order:<class> above
+            run.notes.setdefault("implementation_follows_historical_model", {})[cls] = "stages evaluated with H s instead of -i H s"
             continue
         for lab in labs:
             if not res[lab]:
@@ -620,7 +624,10 @@ def main(run):
     run_nsteps(run, rng)
     run_rk(run, rng)
     run_exp_solver(run, rng)
-    run.not_proved += ["merge_ok: the matrix identity merge = merge_spec (reshape/transpose index theorem) and hence 'merged group = sum of embedded members' is checked exactly per case (g*:merge_spec), not proved; merge_ok_partial covers targets and refusal",
+    run.notes["historical"] = ("coq/theories/C16/History.v holds lemmas about the pre-repair code (nsteps truncation, RK stages "
+                               "without -i); they are not statements about the current tree")
+    run.not_proved += ["nsteps_ok for ALL float triples whose real quotient is within 1/2 of an integer (needs the IEEE-754 axioms of Coq's Floats); proved: the bounded decimal grid of nsteps_ok_bounded; beyond it bit-exact comparison per run",
+                       "composition of embeddings (embedded merge_spec = sum of embedded members on n qubits): checked exactly per case (g*:merge_spec); merge = merge_spec itself is proved (merge_ok)",
                        "trotter_commuting_exact for ALL commuting families (needs the matrix exponential); proved per listed instance for all dt",
                        "trotter_third_order (analytic O(dt^3) bound: needs operator norms / BCH)",
                        "convergence of RK / Trotter solvers as limits", "adiabatic accuracy"]
